@@ -369,7 +369,7 @@ impl Driver for C07 {
             if !feasible_pts.is_empty() {
                 out.nontrivial(hash_str(&format!("{:?}", m)));
             }
-            if case == 0 && out.unit < 3 {
+            if out.report.samples.is_empty() && out.unit < 16 {
                 let db = derived_bounds(&model, None);
                 out.sample(json!({"model": m.show(), "derived": db.variables().iter().map(|(k, v)| format!("{k} in [{}, {}]", v.0, v.1)).collect::<Vec<_>>()}));
             }
@@ -664,7 +664,7 @@ impl Driver for C08 {
                         if lm.constraints().iter().any(|r| r.name().contains("__")) {
                             out.tag("deduplicated-row-name");
                         }
-                        if case == 1 && out.unit < 3 {
+                        if out.report.samples.is_empty() && out.unit < 16 {
                             out.sample(json!({"model": m.show(), "linear_model": lm.to_string()}));
                         }
                     } else {
